@@ -21,13 +21,13 @@ func init() {
 func (c19) ID() string    { return "C19" }
 func (c19) Level() string { return "exploration" }
 func (c19) Rule() string {
-	return "A case is a seeded situation: a branch rule needing 1-3 of persons 1-3 (person 4 defined but not trusted), optionally a global threshold rule, a feature history (1-3 commits by various actors) that is ahead of or diverged from the branch, and prior approvals for exactly the predicted merge (authorizations and code-review approvals by any subset of persons, possibly stale). The real VerifyMergeable gives the prediction; then, for each candidate recorder (a trusted person who has not approved, one who has, the untrusted person 4, an outsider key, unsigned) the same operations are re-executed from scratch (exact replay = a fork of the same state), the fast-forward or the pre-built merge commit carrying the predicted tree is recorded by that candidate, and VerifyRefFull is run. Oracle: the three-way contract of the statement per recorder. Distinct = distinct (threshold, global rule, approval set, shape, prediction, per-recorder outcome vector); non-trivial = the prediction was 'possible' in at least one form or approvals were present."
+	return "A case is a seeded situation: a branch rule needing 1-3 of persons 1-3 (person 4 defined but not trusted), optionally a global threshold rule, optionally a file rule (1-2 of a subset of the persons) on the first feature file, a feature history (1-3 commits by various actors) that is ahead of or diverged from the branch, and prior approvals for exactly the predicted merge (authorizations and code-review approvals by any subset of persons, possibly stale). The real VerifyMergeable gives the prediction; then, for each candidate recorder (a trusted person who has not approved, one who has, the untrusted person 4, an outsider key, unsigned) the same operations are re-executed from scratch (exact replay = a fork of the same state), the fast-forward or the pre-built merge commit carrying the predicted tree is recorded by that candidate, and VerifyRefFull is run. Oracle: the three-way contract of the statement per recorder. Distinct = distinct (threshold, global rule, approval set, shape, prediction, per-recorder outcome vector); non-trivial = the prediction was 'possible' in at least one form or approvals were present."
 }
 func (c19) Components() map[string]string {
 	return map[string]string{"internal/policy (verifyMergeable, verifier)": "real", "internal/attestations": "real", "GetMergeTree": "stub (SimStore per-path three-way merge; real `git merge-tree` is exercised by the git-backed checks)", "gitstore.Storer": "stub (SimStore)"}
 }
 func (c19) Assumptions() []string {
-	return []string{"the branch's previous entry is unskipped and no policy or attestation entry lies between prediction and merge (by construction)", "file rules are not generated in this check"}
+	return []string{"the branch's previous entry is unskipped and no policy or attestation entry lies between prediction and merge (by construction)", "with a file rule present only fast-forward merges are compared: a recorded merge commit is itself subject to the file rule and signed by someone the prediction cannot know"}
 }
 
 func (c19) Generate(r *core.Rand, tier string, idx uint64) *core.Case {
@@ -55,6 +55,10 @@ func (c19) Generate(r *core.Rand, tier string, idx uint64) *core.Case {
 		lastF = b.add(op)
 	}
 	diverged := r.Chance(0.4)
+	fileRule := r.Chance(0.3)
+	if fileRule && r.Chance(0.8) {
+		diverged = false // with a merge commit of its own the comparison is not made (see Execute)
+	}
 	lastMain := mainA
 	if diverged {
 		a1 := r.Range(1, 3)
@@ -67,6 +71,15 @@ func (c19) Generate(r *core.Rand, tier string, idx uint64) *core.Case {
 	if r.Chance(0.3) {
 		p2.GlobalRules = []world.GlobalRuleSpec{{Name: "global-main", Kind: "threshold", Patterns: []string{"git:" + mainRef}, Threshold: r.Range(1, 3)}}
 		p2.RootVersion = 2
+	}
+	if fileRule {
+		// the first feature file is protected: 1-2 of a subset of persons 1-3 must vouch for commits changing it
+		n := r.Range(1, 2)
+		ids := []string{}
+		for _, k := range subset(r, []int{1, 2, 3}, r.Range(n, 3)) {
+			ids = append(ids, fmt.Sprintf("person-%d", k))
+		}
+		p2.Files["targets"].Rules = append(p2.Files["targets"].Rules, world.RuleSpec{Name: "protect-feat0", Patterns: []string{"file:feat0.txt"}, Principals: ids, Threshold: n})
 	}
 	b.add(world.Op{Kind: "stage", Actor: 0, Policy: p2})
 	b.add(world.Op{Kind: "apply", Actor: 0})
@@ -98,6 +111,7 @@ func (c19) Generate(r *core.Rand, tier string, idx uint64) *core.Case {
 	c.Config["target"] = target
 	c.Config["thr"] = thr
 	c.Flags["diverged"] = diverged
+	c.Flags["fileRule"] = fileRule
 	c.Ops = b.ops
 	return c
 }
@@ -233,6 +247,15 @@ func (d c19) Execute(c *core.Case) *core.Result {
 		if pol := run.L.PolicyBefore(len(w.Entries)); pol != nil && len(pol.GlobalRules) > 0 {
 			feats = append(feats, "policy-has-global-rule")
 		}
+		if c.Flags["fileRule"] {
+			feats = append(feats, "policy-has-file-rule")
+		}
+		if c.Flags["fileRule"] && c.Flags["diverged"] {
+			// the recorded merge commit itself changes the protected path relative to the
+			// branch and carries a signature the prediction cannot know: not compared
+			res.Stat("comparisons_skipped_merge_commit_under_file_rule", 1)
+			continue
+		}
 		trustedRecorder := cand.key == -2 && cand.actor >= 1 && cand.actor <= 3
 		counted := approvers[cand.actor] && cand.key == -2
 		switch pred {
@@ -259,13 +282,14 @@ func (d c19) Execute(c *core.Case) *core.Result {
 		vec = append(vec, o.accept)
 	}
 	res.Steps = len(c.Ops) * len(cands)
-	res.Digest = core.HashStrings(fmt.Sprint(predClass, predNeed), strings.Join(vec, ","), fmt.Sprint(c.Config["thr"], c.Flags["diverged"]), fmt.Sprint(approvers))
+	res.Digest = core.HashStrings(fmt.Sprint(predClass, predNeed), strings.Join(vec, ","), fmt.Sprint(c.Config["thr"], c.Flags["diverged"], c.Flags["fileRule"]), fmt.Sprint(approvers))
 	res.StateKey = res.Digest
 	res.Nontrivial = predClass == "accept" || anyApprovals
 	res.Stat("probe:predicted_signature_needed", boolInt(predClass == "accept" && predNeed))
 	res.Stat("probe:predicted_no_signature_needed", boolInt(predClass == "accept" && !predNeed))
 	res.Stat("probe:predicted_not_possible", boolInt(predClass != "accept"))
 	res.Stat("probe:diverged_merge_commit", boolInt(c.Flags["diverged"]))
+	res.Stat("probe:file_rule_on_feature_path", boolInt(c.Flags["fileRule"] && !c.Flags["diverged"]))
 	res.Sample = map[string]any{"ops": describeOps(c.Ops), "threshold": c.Config["thr"], "prediction(class/needs-signature)": fmt.Sprintf("%s/%v", predClass, predNeed), "already_counted_persons": fmt.Sprint(approvers), "verdict_per_recorder[p1,p2,p3,p4,outsider,unsigned]": vec}
 	return res
 }
